@@ -175,6 +175,9 @@ pub struct MacroDefinition {
 /// The number of '.loop' iterations (of all loops together, nested ones included) a single pass may run
 const MAX_LOOP_ITERATIONS: i64 = 0x10000;
 
+/// The largest bank that can be configured: 16 MiB
+const MAX_BANK_SIZE: i64 = 0x100_0000;
+
 /// How deeply blocks, macro invocations and imports may be nested (the code generator recurses once per level)
 const MAX_NESTING_DEPTH: usize = 64;
 
@@ -684,11 +687,12 @@ impl CodegenContext {
                             let name = extractor.get_identifier(self, "name")?;
                             let size = extractor.try_get_i64(self, "size")?;
                             if let Some(size) = size {
-                                if size < 0 {
+                                // (a bank is padded to its size in memory before it is written)
+                                if !(0..=MAX_BANK_SIZE).contains(&size) {
                                     return Err(Diagnostic::error()
                                         .with_message(format!(
-                                            "the size of bank '{}' may not be negative: {}",
-                                            name, size
+                                            "the size of bank '{}' must lie between 0 and {} bytes: {}",
+                                            name, MAX_BANK_SIZE, size
                                         ))
                                         .with_labels(vec![id.span.to_label()])
                                         .into());
